@@ -13,8 +13,17 @@ def validate_encoded(string):
       "{} is not a valid hex string\n".format(repr(string))+
       "(it does not match the regular expression [0-9A-F]+)")
 
-def validate_decoded(byte_array):
-  return byte_array.validate()
+def validate_decoded(obj):
+  if isinstance(obj, list):
+    obj = gfapy.ByteArray(obj)
+  elif not isinstance(obj, gfapy.ByteArray):
+    raise gfapy.TypeError(
+      "the class {} is incompatible with the datatype\n"
+      .format(obj.__class__.__name__)+
+      "(accepted classes: str, list, gfapy.ByteArray)")
+  if len(obj) == 0:
+    raise gfapy.ValueError("an empty byte array cannot be represented")
+  return obj.validate()
 
 def unsafe_encode(obj):
   if isinstance(obj, gfapy.ByteArray):
@@ -31,8 +40,10 @@ def unsafe_encode(obj):
 
 def encode(obj):
   if isinstance(obj, gfapy.ByteArray):
+    validate_decoded(obj)
     return str(obj)
   elif isinstance(obj, list):
+    validate_decoded(obj)
     return str(gfapy.ByteArray(obj))
   elif isinstance(obj, str):
     validate_encoded(obj)
